@@ -74,7 +74,7 @@ def run(ck, prop, tier, ex, ps):
     ck.assumptions.append("reg stream (harness/h1_reg.cpp, vshim_mt.h): C++11 atomics rendered by the view semantics of the N-thread shim (store histories in "
                           "execution order, stale loads bounded by coherence and happens-before, release/acquire view transfer, read-modify-writes read the newest store); "
                           "one scheduler step = one atomic access plus the plain code up to the next one; the context list only grows here (reclamation is the backend model's subject)")
-    nsched = 4000 if tier == "quick" else 40000
+    nsched = 4000 if tier == "quick" else 20000
     pline = params_line(ex)
     outs = []
     # corpus first: corpus/<prop>/reg_*.txt are replay files
